@@ -210,6 +210,9 @@ type nxHost struct {
 	usm   *nxSM
 	up    bool
 	incar int
+	// tickEvents counts the LocalTick messages the harness gave this host (an
+	// independent clock for the expiry oracle of C12)
+	tickEvents int
 	// joiner: a non-voting replica that is added by a membership change and then
 	// started empty with join=true (ids N+1.. of a configuration with NonVotings)
 	joiner bool
@@ -257,6 +260,8 @@ type nxOp struct {
 	readyAt   int // read: ReadIndex completed, waiting for the Lookup event
 	key       uint64
 	deadline  uint64 // logical tick of the request deadline
+	timeout   uint64 // the timeout the client asked for, in ticks
+	callTicks int    // tick events the host had seen when the request was made
 	committed int
 }
 
@@ -1119,6 +1124,7 @@ func (c *nxCluster) Step(e uint32) (msg string) {
 				vp.ForceHeartbeatTimeout()
 			}
 			tick := h.node.pendingReadIndexes.getTick() + 1
+			h.tickEvents++
 			h.node.mq.Tick()
 			h.node.mq.Add(pb.Message{Type: pb.LocalTick, To: h.id, From: h.id, Hint: tick})
 			c.stepWorker(h)
@@ -1175,7 +1181,7 @@ func (c *nxCluster) Step(e uint32) (msg string) {
 			timeout = 3
 		}
 		op := &nxOp{id: len(c.ops), kind: 'w', at: h.id, val: c.nextVal, call: c.clock, incar: h.incar,
-			deadline: h.node.pendingReadIndexes.getTick() + timeout}
+			deadline: h.node.pendingReadIndexes.getTick() + timeout, timeout: timeout, callTicks: h.tickEvents}
 		c.ops = append(c.ops, op)
 		cmd := make([]byte, 8)
 		binary.BigEndian.PutUint64(cmd, op.val)
@@ -1199,7 +1205,7 @@ func (c *nxCluster) Step(e uint32) (msg string) {
 			timeout = 3
 		}
 		op := &nxOp{id: len(c.ops), kind: 'r', at: h.id, call: c.clock, incar: h.incar,
-			deadline: h.node.pendingReadIndexes.getTick() + timeout}
+			deadline: h.node.pendingReadIndexes.getTick() + timeout, timeout: timeout, callTicks: h.tickEvents}
 		c.ops = append(c.ops, op)
 		rs, err := h.node.read(timeout)
 		if err != nil {
